@@ -41,7 +41,7 @@ func init() {
 				}
 				c.Cover("id_universe", "shared-between-stores")
 			}
-			runHistory(c, r, histOpts{Prefix: "C04", Cfg: cfg, NTx: 40, MaxOps: 3, Hostile: true, Weights: w, Setup: setup,
+			runHistory(c, r, histOpts{Prefix: "C04", FanIn: true, Cfg: cfg, NTx: 40, MaxOps: 3, Hostile: true, Weights: w, Setup: setup,
 				AfterTx: func(e *kmodel.Engine, res *kmodel.TxResult, _, _ *dump.Dump) {
 					if !res.Committed {
 						return
@@ -50,6 +50,9 @@ func init() {
 						if op.Kind == "delete" && op.Exp == kmodel.ExpOK {
 							c.Cover("delete", cfg.String()+":accepted")
 							if n := len(e.M.LastDeleted); n > 1 {
+								if n > 3 {
+									c.Count("cascades_of_3_or_more", 1)
+								}
 								c.Count("cascade_deletes", 1)
 								c.Count("cascaded_entities", int64(n-1))
 								c.Cover("delete", cfg.String()+":cascaded")
@@ -60,9 +63,11 @@ func init() {
 		},
 		Promises: func(core.Tier) map[string][]string {
 			return map[string][]string{"op_outcome": {"create:ok", "create:notfound", "update:notfound", "delete:ok", "delete:refexists", "delete:notfound"},
-				"self_fk": {"create-node:ok", "create-node:error", "update-node:ok", "update-node:error", "delete-node:ok", "delete-node:error", "create-pin:ok", "create-pin:error", "delete-pin:ok"},
+				"self_fk":       {"create-node:ok", "create-node:error", "update-node:ok", "update-node:error", "delete-node:ok", "delete-node:error", "create-pin:ok", "create-pin:error", "delete-pin:ok"},
 				"self_fk_shape": {"self", "self+edge-size id"}}
 		},
-		MinCounters: func(core.Tier) map[string]int64 { return map[string]int64{"cascade_deletes": 20, "self_fk_states_checked": 1000} },
+		MinCounters: func(core.Tier) map[string]int64 {
+			return map[string]int64{"cascade_deletes": 20, "cascades_of_3_or_more": 100, "self_fk_states_checked": 1000}
+		},
 	})
 }
